@@ -37,6 +37,10 @@ struct CallSpec {
     /// (and leave nothing behind) without anything reaching the peer
     #[serde(default)]
     unencodable: bool,
+    /// > 0: the caller gives the call up (drops its future, as an outer timeout or select would) this many
+    /// ms after the peer has seen the request; it then carries on with its next call
+    #[serde(default)]
+    abandon_ms: u64,
 }
 
 #[derive(Clone, Debug, Serialize, Deserialize, Default)]
@@ -166,7 +170,7 @@ impl Scenario for C17 {
                     _ => r.below(timeout_ms / 3 + 1),
                 };
                 let jump_to_wrap = if r.chance(1, 12) { r.range(1, 4) as u32 } else { 0 };
-                let mut spec = CallSpec { timeout_ms, start_delay_ms: r.below(40), reply, delay_ms, to_unconnected: r.chance(1, 16), jump_to_wrap, unencodable: r.chance(1, 20) };
+                let mut spec = CallSpec { timeout_ms, start_delay_ms: r.below(40), reply, delay_ms, to_unconnected: r.chance(1, 16), jump_to_wrap, unencodable: r.chance(1, 20), abandon_ms: 0 };
                 if !faults && !spec.to_unconnected && r.chance(1, 12) {
                     // "no timeout": the largest duration there is (u64::MAX here stands for Duration::MAX); the peer answers
                     // (fault-free runs only: with the connection gone such a call has nothing left to wait for, and
@@ -174,6 +178,15 @@ impl Scenario for C17 {
                     spec.timeout_ms = u64::MAX;
                     spec.reply = (*r.pick(&["normal", "normal", "twice"])).to_string();
                     spec.delay_ms = r.below(2_000);
+                }
+                if r.chance(1, 10) {
+                    // given up by the caller: well before, just before, just after the reply is due, or while none comes
+                    spec.abandon_ms = match r.below(4) {
+                        0 => 1 + r.below(20),
+                        1 => spec.delay_ms.saturating_sub(1).max(1).min(600_000),
+                        2 => spec.delay_ms.saturating_add(1).min(600_000),
+                        _ => 1 + r.below(spec.timeout_ms.min(30_000)),
+                    };
                 }
                 calls.push(spec);
             }
@@ -183,7 +196,7 @@ impl Scenario for C17 {
             // one caller, a long history of answered calls, old replies re-sent now and then
             let n = r.range(70, 140) as usize;
             let calls: Vec<CallSpec> = (0..n)
-                .map(|_| CallSpec { timeout_ms: 3000 + 3 * m, start_delay_ms: 0, reply: if r.chance(1, 5) { "resend_old" } else { "normal" }.to_string(), delay_ms: r.below(3), to_unconnected: false, jump_to_wrap: 0, unencodable: false })
+                .map(|_| CallSpec { timeout_ms: 3000 + 3 * m, start_delay_ms: 0, reply: if r.chance(1, 5) { "resend_old" } else { "normal" }.to_string(), delay_ms: r.below(3), to_unconnected: false, jump_to_wrap: 0, unencodable: false, abandon_ms: if r.chance(1, 12) { 1 + r.below(4) } else { 0 } })
                 .collect();
             callers = vec![calls];
             p.calls_before_start = 0;
@@ -225,7 +238,7 @@ impl Scenario for C17 {
             components_stubbed: &["TCP (SimNet)", "EPMD (stub)", "remote node: handshake acceptor + rex model with an independent frame/term reader"],
             assumptions: &["the peer ticks every 5 simulated seconds so that the receiver's 10 s read timeout (a C19 question) does not interfere", "RpcTimeout is judged inadmissible only if a reply addressed to the call was written by the peer at least `margin` before the call returned (margin = injected network/yield delay bound)"],
             fault_prefixes: &["fault.", "net."],
-            expected_probes: &["probe.c17.ok", "probe.c17.ok_with_unbounded_timeout", "probe.c17.unencodable_request_rejected", "probe.c17.old_reply_sent_again", "probe.c17.long_history", "probe.c17.reply_with_legacy_pid_tag", "probe.c17.timeout", "probe.c17.reply_after_timeout_dropped", "probe.c17.duplicate_reply_dropped", "probe.c17.unknown_pid_reply_dropped", "probe.c17.not_connected", "probe.c17.send_failed", "probe.c17.liveness_probe_ok", "probe.c17.counter_moved_to_wrap", "probe.c17.calls_before_start", "probe.c17.call_to_a_second_node_answered"],
+            expected_probes: &["probe.c17.ok", "probe.c17.ok_with_unbounded_timeout", "probe.c17.unencodable_request_rejected", "probe.c17.old_reply_sent_again", "probe.c17.long_history", "probe.c17.reply_with_legacy_pid_tag", "probe.c17.timeout", "probe.c17.reply_after_timeout_dropped", "probe.c17.duplicate_reply_dropped", "probe.c17.unknown_pid_reply_dropped", "probe.c17.not_connected", "probe.c17.send_failed", "probe.c17.liveness_probe_ok", "probe.c17.counter_moved_to_wrap", "probe.c17.calls_before_start", "probe.c17.call_to_a_second_node_answered", "probe.c17.call_given_up_by_its_caller", "probe.c17.answer_to_a_given_up_call_dropped"],
         }
     }
 }
@@ -579,13 +592,37 @@ async fn scenario(w: &Arc<World>, p: &Plan) {
                 if c.unencodable {
                     args.push(OwnedTerm::Atom(erltf::types::Atom::new("x".repeat(70_000))));
                 }
-                let r = node
-                    .rpc_call_raw_with_timeout(target, "m", "f", args, if c.timeout_ms == u64::MAX { Duration::MAX } else { Duration::from_millis(c.timeout_ms) })
-                    .await;
+                let call = node.rpc_call_raw_with_timeout(target, "m", "f", args, if c.timeout_ms == u64::MAX { Duration::MAX } else { Duration::from_millis(c.timeout_ms) });
+                let r = if c.abandon_ms > 0 {
+                    // the future is dropped only once the peer holds the whole request: giving a call up while its
+                    // frame is half written is a question about the send path, not about the call table
+                    let sh = sh.clone();
+                    let give_up = async {
+                        loop {
+                            if sh.lock().unwrap().reqs.iter().any(|q| q.caller == ci as i64 && q.idx == ix as i64) {
+                                break;
+                            }
+                            tokio::time::sleep(Duration::from_millis(1)).await;
+                        }
+                        tokio::time::sleep(Duration::from_millis(c.abandon_ms)).await;
+                    };
+                    tokio::pin!(call);
+                    tokio::select! {
+                        biased;
+                        r = &mut call => Some(r),
+                        _ = give_up => None,
+                    }
+                } else {
+                    Some(call.await)
+                };
                 let t1 = World::now_ms();
                 let (ok, err) = match &r {
-                    Ok(v) => (Some(to_val(v)), String::new()),
-                    Err(e) => (None, classify(e)),
+                    Some(Ok(v)) => (Some(to_val(v)), String::new()),
+                    Some(Err(e)) => (None, classify(e)),
+                    None => {
+                        w.stat("probe.c17.call_given_up_by_its_caller");
+                        (None, "Abandoned".to_string())
+                    }
                 };
                 w.ev(format!("caller {} call {} -> {} at {}ms", ci, ix, if ok.is_some() { "Ok".to_string() } else { err.clone() }, t1));
                 w.sig(0xca11 ^ (ci as u64) << 8 ^ ix as u64);
@@ -604,8 +641,26 @@ async fn scenario(w: &Arc<World>, p: &Plan) {
     w.set_yield_cfg(YieldCfg::default());
 
     let left = node.verif_pending_rpcs_len();
-    if left != 0 {
-        w.violation("rpc-entry-leaked", format!("{} outstanding-call entries remain after every call returned (conn_fault={:?})", left, p.conn_fault));
+    // A call given up by its caller has not returned; what the statement says about bookkeeping is about calls
+    // that have. Its entry may stay until an answer addressed to it comes in (counted, not judged).
+    let may_stay = {
+        let g = sh.lock().unwrap();
+        g.results
+            .iter()
+            .filter(|r| r.err == "Abandoned")
+            .filter(|r| {
+                let from = g.reqs.iter().find(|q| q.caller == r.caller as i64 && q.idx == r.idx as i64).map(|q| q.from.clone());
+                match from {
+                    Some(f) => !p.conn_fault.is_empty() || !g.reps.iter().any(|x| x.to == f && x.t_sent > r.t1),
+                    None => true,
+                }
+            })
+            .count()
+    };
+    if left > may_stay {
+        w.violation("rpc-entry-leaked", format!("{} outstanding-call entries remain after every call returned ({} of them may belong to calls given up by their callers and never answered; conn_fault={:?})", left, may_stay, p.conn_fault));
+    } else if left > 0 {
+        w.stat("c17.entry_of_a_given_up_call_left_behind");
     }
     evaluate(w, &p, &sh);
 
@@ -617,7 +672,7 @@ async fn scenario(w: &Arc<World>, p: &Plan) {
             Ok(_) => w.stat("probe.c17.liveness_probe_ok"),
             Err(e) => w.violation("liveness", format!("after all faults stopped a fresh call on the still-registered connection failed: {}", e)),
         }
-        if node.verif_pending_rpcs_len() != 0 {
+        if node.verif_pending_rpcs_len() > may_stay {
             w.violation("rpc-entry-leaked", "entry left after the liveness probe".to_string());
         }
     }
@@ -735,6 +790,15 @@ fn evaluate(w: &Arc<World>, p: &Plan, sh: &Arc<Mutex<Shared>>) {
                 }
                 if r.t1 < r.t0.saturating_add(spec.timeout_ms) {
                     w.violation("early-timeout", format!("caller {} call {} reported RpcTimeout after {}ms with a timeout of {}ms", r.caller, r.idx, r.t1 - r.t0, spec.timeout_ms));
+                }
+            }
+            (None, "Abandoned") => {
+                // nothing to judge about the call itself; its answer, if one comes, must reach nobody (checked where
+                // other calls return: wrong-reply, reply-delivered-twice)
+                if let Some(req) = req {
+                    if g.reps.iter().any(|x| x.to == req.from && x.t_sent > r.t1) {
+                        w.stat("probe.c17.answer_to_a_given_up_call_dropped");
+                    }
                 }
             }
             (None, "NodeNotConnected") => {
